@@ -12,5 +12,5 @@ if [ -n "$RUN_TESTS" ]; then
   (cd "$SCR/repo" && PYTHONPATH="$SCR/repo" /venv/bin/python -m pytest -q -p no:cacheprovider -x --timeout=900 usim_pytest 2>&1 | tail -1)
 fi
 cp -r "$HERE" "$SCR/verif" && rm -rf "$SCR/verif/.git" "$SCR/verif/replays/$ID/found_"*
-USIM_REPO="$SCR/repo" "$SCR/verif/bin/check" "$ID" --tier "$TIER" 2>&1 | grep -v '^  ' | head -${LINES_MAX:-12}
+USIM_REPO="$SCR/repo" "$SCR/verif/bin/check" "$ID" --tier "$TIER" 2>&1 | grep -v '^   \|^ got\|^ want\|^ full' | cut -c1-260 | head -${LINES_MAX:-40}
 echo "exit=${PIPESTATUS[0]}"
